@@ -20,6 +20,8 @@ type c05inst struct {
 	calc   *calculator.ExpressionCalculator
 	tmpl   *mustache.MustacheTemplate
 	fnops  []Ev // changes made to the calculator's default functions so far (a fresh calculator gets the same ones)
+	mgr    string // variant operations installed last ("" = the default)
+	text   string // expression set last
 }
 
 type c05fn struct {
@@ -154,6 +156,38 @@ func init() {
 				e["input"] = cps(text)
 				e["obs"] = obsParser(c05cur.parser, text)
 				e["fresh"] = obsParser(parsers.NewExpressionParser(), text)
+			case "setops": // another operations manager is installed; the expression is NOT set again
+				c05cur.mgr = toStr(in["mgr"])
+				e["mgr"] = c05cur.mgr
+				c05cur.calc.SetVariantOperations(c06mgr(c05cur.mgr))
+				e["obs"], e["fresh"] = []any{"done"}, []any{"done"}
+			case "reeval": // evaluate what the calculator holds once more (no Set... in between)
+				ev := func(c *calculator.ExpressionCalculator) []any {
+					var res *variants.Variant
+					var err error
+					if oc, _ := guarded(func() { res, err = c.EvaluateUsingVariables(c05vars()) }); oc != "ok" {
+						return []any{"panic"}
+					}
+					if err != nil {
+						return []any{"error", errCode(err)}
+					}
+					if res == nil {
+						return []any{"nil"}
+					}
+					return []any{"ok", int(res.Type()), res.String()}
+				}
+				fc := calculator.NewExpressionCalculator()
+				fc.SetAutoVariables(false)
+				for _, op := range c05cur.fnops {
+					applyFnOp(fc, op)
+				}
+				if c05cur.mgr != "" {
+					fc.SetVariantOperations(c06mgr(c05cur.mgr))
+				}
+				text = c05cur.text
+				e["input"] = cps(text)
+				guarded(func() { fc.SetExpression(text) })
+				e["obs"], e["fresh"] = ev(c05cur.calc), ev(fc)
 			case "fnop":
 				op := Ev{"do": in["do"], "name": in["name"], "k": in["k"]}
 				e["do"], e["name"], e["k"] = in["do"], in["name"], in["k"]
@@ -184,11 +218,15 @@ func init() {
 				e["obs"], e["fresh"] = ev(c05cur.calc), ev(fc)
 				c05cur.calc.SetAutoVariables(false)
 			case "calculator":
+				c05cur.text = text
 				e["obs"] = obsCalc(c05cur.calc, text)
 				fc := calculator.NewExpressionCalculator()
 				fc.SetAutoVariables(false)
 				for _, op := range c05cur.fnops {
 					applyFnOp(fc, op)
+				}
+				if c05cur.mgr != "" {
+					fc.SetVariantOperations(c06mgr(c05cur.mgr))
 				}
 				e["fresh"] = obsCalc(fc, text)
 			case "template":
@@ -198,7 +236,7 @@ func init() {
 			return e
 		}
 	}
-	for _, w := range []string{"parser", "calculator", "template", "parsertok", "parserexpr", "fnop", "calceval"} {
+	for _, w := range []string{"parser", "calculator", "template", "parsertok", "parserexpr", "fnop", "calceval", "setops", "reeval"} {
 		c05exec[w] = mk(w)
 	}
 	c05extra = append(c05extra, genC05b)
@@ -272,6 +310,18 @@ func genC05b(g *Gen) {
 		for _, x2 := range []string{"x = 'abc'", "x = 'a b'", "\"a b\" + 1", "a + b", "'1' + 2", "(a", "x = abc"} {
 			g.Run("one parser through both entries", []Ev{{"op": "reuse", "what": "parsertok", "input": cps(x2), "first": true}, {"op": "reuse", "what": "parserexpr", "input": []int{}, "first": false},
 				{"op": "reuse", "what": "parser", "input": cps(x1), "first": false}, {"op": "reuse", "what": "parserexpr", "input": []int{}, "first": false}, {"op": "reuse", "what": "parsertok", "input": cps(x1), "first": false}})
+		}
+	}
+	// another operations manager installed between two evaluations of the same compiled expression
+	for _, ex := range []string{"(7 + '5') * 2 > 20", "1 + '2'", "2 * 3 + 1", "'a' + 1", "a + b", "a + '1'", "1.5 + 2", "Max(1, 2) + '3'", "7 / 2", "1 = '1'"} {
+		for _, order := range [][]string{{"safe", "unsafe"}, {"unsafe", "safe"}, {"safe", "safe", "unsafe"}} {
+			seg := []Ev{{"op": "reuse", "what": "calculator", "input": cps(ex), "first": true}, {"op": "reuse", "what": "reeval", "input": []int{}, "first": false}}
+			for _, m := range order {
+				seg = append(seg, Ev{"op": "reuse", "what": "setops", "input": []int{}, "first": false, "mgr": m}, Ev{"op": "reuse", "what": "reeval", "input": []int{}, "first": false},
+					Ev{"op": "reuse", "what": "reeval", "input": []int{}, "first": false})
+			}
+			seg = append(seg, Ev{"op": "reuse", "what": "calculator", "input": cps("1 + '2'"), "first": false}, Ev{"op": "reuse", "what": "reeval", "input": []int{}, "first": false})
+			g.Run("operations manager replaced between evaluations", seg)
 		}
 	}
 	// the calculator's default functions changed between evaluations
